@@ -280,6 +280,12 @@ class Property(object):
                     # value is mutated into a new array
                     value = self.datatype(value)
 
+                # anything else must already be an array of this type
+                elif not isinstance(value, self.datatype):
+                    raise InvalidParameterDatatype("%s must be of type %s" % (
+                            self.identifier, self.datatype.__name__,
+                            ))
+
             # if it's an array, make sure it's valid regarding arrayIndex provided
             elif issubclass(self.datatype, List):
                 if _debug: Property._debug("    - property is list, checking subtype")
